@@ -147,10 +147,16 @@ impl HotTier {
             inserted_at: Instant::now(),
         };
 
-        self.documents.write().insert(doc_id, doc);
+        // Lock order is documents -> stats everywhere else (get, delete, drain): take the
+        // size under the documents lock instead of re-locking it while holding stats.
+        let current_size = {
+            let mut documents = self.documents.write();
+            documents.insert(doc_id, doc);
+            documents.len()
+        };
 
         let mut stats = self.stats.write();
-        stats.current_size = self.documents.read().len();
+        stats.current_size = current_size;
         stats.total_inserts += 1;
     }
 
